@@ -713,6 +713,17 @@ fn run_life(world: &Shared, setup: &Setup, steps: &mut u64) -> LifeEnd {
         let mut w = lock(world);
         let p = w.profile.clone();
         let life = w.life;
+        if p.request_at_start_permille > 0 && handle.is_some() {
+            let early: Vec<Trigger> = w.triggers.iter().filter(|t| !t.class.starts_with("__")).cloned().collect();
+            for tr in early {
+                if w.draws.chance(&format!("L{life}/client#{}/req#{}/at_start", tr.client, tr.req), p.request_at_start_permille) {
+                    w.triggers.retain(|t| !(t.class == tr.class && t.client == tr.client && t.req == tr.req));
+                    w.stat("ctl.request_at_start");
+                    let t = w.vt.saturating_add(tr.delay).min(VT_MAX);
+                    w.push(t, 1, What::ClientInvoke(tr.client, tr.req));
+                }
+            }
+        }
         if w.draws.chance(&format!("L{life}/neighbour"), p.neighbour_permille) {
             let n = 1 + w.draws.draw(&format!("L{life}/neighbour.n"), 3);
             for k in 0..n {
